@@ -202,7 +202,7 @@ fn instantiate(ch: &mut Chooser, lang: &str, pat: &str) -> String {
 // ---- multi-line pool ---------------------------------------------------------------------
 
 const LINE_POOL: [&str; 12] = ["", "   ", "# a comment", "1 + 2", "10 usd to try", "1 +", "(", "=", "1 usd + 1 km", "15/11/2021 + 1 month", "[NUMBER:abc]", "0xFFFFFFFFFFFFFFFFFF + 1"];
-const VAR_POOL: [&str; 8] = ["a = 5", "a + 1", "a b = 1 +", "b = a * 2", "a = a + 1", "a = a", "a b = a b * 2", "b = (b)"];
+const VAR_POOL: [&str; 16] = ["a = 5", "a + 1", "a b = 1 +", "b = a * 2", "a = a + 1", "a = a", "a b = a b * 2", "b = (b)", "{NUMBER:x} = 5", "{PERCENT:p} = 10%", "{TIME:t} = 11:30", "{TEXT:w} = 5", "7", "10%", "11:30", "[NUMBER:5] = 5"];
 
 impl Prop for C01 {
     type Case = Case;
@@ -360,6 +360,40 @@ impl Prop for C01 {
                 Some(Case { cfg, lang: lang.into(), now: None, text: format!("{}{}", t, cont), independent: false })
             },
         ));
+        // (e3) every pair of unit names the configuration defines, whatever they are
+        {
+            let mut groups: Vec<Vec<String>> = Vec::new();
+            if let Some(types) = spec().json["types"].as_array() {
+                for t in types {
+                    let mut names = Vec::new();
+                    for it in t["items"].as_array().unwrap_or(&Vec::new()) {
+                        if let Some(ns) = it["names"].as_array() {
+                            if let Some(n) = ns.first().and_then(|n| n.as_str()) {
+                                names.push(n.to_string());
+                            }
+                        }
+                    }
+                    groups.push(names);
+                }
+            }
+            let all: Vec<(usize, String)> = groups.iter().enumerate().flat_map(|(g, ns)| ns.iter().map(move |n| (g, n.clone()))).collect();
+            let n = all.len();
+            f.push(Family::new(
+                "config-unit-pairs",
+                Mode::Full,
+                &format!("every ordered pair of the {} unit names that config.json defines (first name of every item of every family, so a unit added to the data is exercised without touching the harness) in '5 A to B', '5 A + 1 B' and '5 A / 2 B': returns normally", n),
+                move |ch| {
+                    let (_, a) = ch.pick(&all).clone();
+                    let (_, b) = ch.pick(&all).clone();
+                    let text = match ch.choose(3) {
+                        0 => format!("5 {} to {}", a, b),
+                        1 => format!("5 {} + 1 {}", a, b),
+                        _ => format!("5 {} / 2 {}", a, b),
+                    };
+                    Some(simple("en", text))
+                },
+            ));
+        }
         // (f) stress shapes
         {
             f.push(Family::new(
